@@ -10,14 +10,15 @@
 (***************************************************************************)
 EXTENDS Integers, Sequences, FiniteSets, TLC
 
-SubmitFaults == {"none", "timeout", "mempool", "toobig", "seqnum", "deadline", "err", "cancel", "acklost"}
+\* "prefix1": the backing DA layer has a tighter limit of its own and takes only the first blob it is offered (one id, no error)
+SubmitFaults == {"none", "prefix1", "timeout", "mempool", "toobig", "seqnum", "deadline", "err", "cancel", "acklost"}
 FetchFaults == {"ok", "notfound", "future", "errlist", "errchunk"}
 
 \* expected status code (names of core/da StatusCode) and submitted count
 SubmitCode(n, fit, fault) ==
     IF n = 0 THEN "Success"
     ELSE IF fit = 0 THEN "TooBig"                     \* not even the first blob fits: nothing is sent
-    ELSE CASE fault = "none" -> "Success"
+    ELSE CASE fault \in {"none", "prefix1"} -> "Success"
            [] fault = "timeout" -> "NotIncludedInBlock"
            [] fault = "mempool" -> "AlreadyInMempool"
            [] fault = "toobig" -> "TooBig"
@@ -25,7 +26,8 @@ SubmitCode(n, fit, fault) ==
            [] fault = "deadline" -> "ContextDeadline"
            [] fault = "cancel" -> "ContextCanceled"
            [] OTHER -> "Error"
-SubmitCount(n, fit, fault) == IF n > 0 /\ fit > 0 /\ fault = "none" THEN fit ELSE 0
+SubmitCount(n, fit, fault) == IF n > 0 /\ fit > 0 /\ fault = "none" THEN fit
+                              ELSE IF n > 0 /\ fit > 0 /\ fault = "prefix1" THEN 1 ELSE 0
 
 FetchCode(fault) ==
     CASE fault = "ok" -> "Success"
